@@ -189,6 +189,37 @@ Definition prql_to_tokens_error (s : source) (bs be : nat) : out (option span * 
   let tree := source_tree_single s in
   lexer_error_reported tree s bs be (min_source_id tree).
 
+(* ---- PREPARED for fixes/F9-byte-spans-converted-in-composed.diff (not in /repo): the repaired pipeline.
+   `composed` converts the byte span to a character span first (`text.get(..byte).map(|s| s.chars().count())`, left alone
+   when an end is off a boundary or past the text), parse_source / prql_to_tokens turn the lexer's character spans into
+   byte spans (`char_indices().nth(n).map_or(len, ..)` = byte_of_char) so that every span that reaches `composed` counts
+   bytes.  A message that already has a location is skipped (no second conversion); the model is one pass. *)
+Definition to_char (s : source) (b : nat) : option nat :=
+  match char_of_byte s b with Ret k => Some k | _ => None end.
+Definition composed_one_fixed (tree : list (nat * source)) (sp : option span) : out (option span * option location) :=
+  match sp with
+  | None => Ret (None, None)
+  | Some sp =>
+      match find (fun p => Nat.eqb (fst p) (sp_src sp)) tree with
+      | None => Ret (None, None)
+      | Some (_, s) =>
+          let sp' := match to_char s (sp_start sp), to_char s (sp_end sp) with
+                     | Some a, Some b => Span a b (sp_src sp)
+                     | _, _ => sp
+                     end in
+          match compose_location s sp' with
+          | Some l => if Nat.ltb (sp_end sp') (sp_start sp') then Panic else Ret (Some sp', Some l)
+          | None => Panic
+          end
+      end
+  end.
+Definition lexer_error_to_byte_span (s : source) (sp : span) : span :=
+  Span (byte_of_char s (sp_start sp)) (byte_of_char s (sp_end sp)) (sp_src sp).
+Definition lexer_error_reported_fixed (tree : list (nat * source)) (s : source) (bs be sid : nat)
+  : out (option span * option location * source) :=
+  bind (convert_lexer_error s bs be sid) (fun p =>
+  bind (composed_one_fixed tree (Some (lexer_error_to_byte_span s (fst p)))) (fun r => Ret (r, snd p))).
+
 (* Resolver::fold_function: an error of the inner fold whose span is in std.prql (source id 0) is given the span of
    the call when that is in the user's source (`e.with_span(span)` overwrites) *)
 Definition std_source_id : nat := 0.
